@@ -16,13 +16,29 @@ class Unreachable(RuntimeError):
     pass
 
 
+def _round_f32(v: float) -> float:
+    """Round a python float (a double) to single precision."""
+    try:
+        return struct.unpack("<f", struct.pack("<f", v))[0]
+    except OverflowError:
+        return math.copysign(math.inf, v)
+
+
+def _sqrt(v: float) -> float:
+    if v < 0:
+        # math.sqrt raises ValueError here.
+        return math.nan
+    else:
+        return math.sqrt(v)
+
+
 def f32_sqrt(v: ir.f32) -> ir.f32:
     """Square root"""
-    return math.sqrt(v)
+    return _round_f32(_sqrt(v))
 
 
 def f64_sqrt(v: ir.f64) -> ir.f64:
-    return math.sqrt(v)
+    return _sqrt(v)
 
 
 def i32_rotr(v: ir.i32, cnt: ir.i32) -> ir.i32:
